@@ -156,6 +156,8 @@ def type_chunks(rng, s, t, split):
         ki = rng.randint(0, len(ifs))
         return ["%stype %s%s%s {\n%s\n}" % (head, t.name, impl(ifs[:ki]), dirs, body(fl[:k])),
                 "extend type %s%s {\n%s\n}" % (t.name, impl(ifs[ki:]), body(fl[k:]))]
+    if not fl:
+        return ["%stype %s%s%s" % (head, t.name, impl(ifs), dirs)]       # only reachable through C12's rewrites
     return ["%stype %s%s%s {\n%s\n}" % (head, t.name, impl(ifs), dirs, body(fl))]
 
 
@@ -203,7 +205,8 @@ def supply(rng, parts, mode, workdir):
         else:
             p = os.path.join(workdir, "part%d.sdl" % i)
         with open(p, "w", encoding="utf-8") as f:
-            f.write("\n\n".join(g) + "\n")
+            # files need not end with a newline; they may end inside a comment
+            f.write("\n\n".join(g) + rng.choice(["\n", "\n", "", " # end of file", "\n# trailing comment"]))
         files.append(p)
     if mode == "dir":
         with open(os.path.join(workdir, "README.txt"), "w") as f:
